@@ -60,13 +60,20 @@ def make_branch(kind, cin, cout, i):
 class S(nn.Module):
     """stem conv -> 1..3 choice blocks (each with n branches) -> flatten -> linear.  `twice`: the first block is invoked twice."""
 
-    def __init__(self, n=2, kind='conv', blocks=1, twice=False, C=2, HW=2, gumbel=False, hard=False, stem2=False):
+    def __init__(self, n=2, kind='conv', blocks=1, twice=False, C=2, HW=2, gumbel=False, hard=False, stem2=False, collide=False):
         super().__init__()
         from plinio.methods.supernet import SuperNetModule
         self.stem = nn.Conv2d(1, C, 1)
         self.blocks = nn.ModuleList()
         for b in range(blocks):
             self.blocks.append(SuperNetModule([make_branch(kind, C, C, i + b) for i in range(n)], gumbel_softmax=gumbel, hard_softmax=hard))
+        # `collide`: a fixed layer whose qualified name has the name of a choice block as a proper string prefix
+        # ('blocks.0' / 'blocks.0x'), as in numbered layers layer1 / layer10
+        self.collide = collide
+        if collide:
+            d = nn.ModuleDict({str(i): b for i, b in enumerate(self.blocks)})
+            d['0x'] = nn.Conv2d(C, C, 3, padding=1)
+            self.blocks = d
         self.twice = twice
         self.stem2 = stem2      # the fixed stem is invoked a second time on a pooled (lower resolution) copy of the input
         self.fc = nn.Linear(C * HW * HW, 2)
@@ -74,6 +81,10 @@ class S(nn.Module):
     def forward(self, x):
         aux = self.stem(F.avg_pool2d(x, 2)).flatten(1).sum(dim=1, keepdim=True) if self.stem2 else None
         x = torch.relu(self.stem(x))
+        if self.collide:
+            for k in sorted(self.blocks.keys()):
+                x = torch.relu(self.blocks[k](x))
+            return self.fc(x.flatten(1))
         for i, b in enumerate(self.blocks):
             x = torch.relu(b(x))
             if i == 0 and self.twice:
@@ -88,7 +99,7 @@ def prog_id(spec):
 
 def build(spec, seed=0):
     torch.manual_seed(seed)
-    kw = {k: v for k, v in spec.items() if k in ('n', 'kind', 'blocks', 'twice', 'C', 'HW', 'gumbel', 'hard', 'stem2')}
+    kw = {k: v for k, v in spec.items() if k in ('n', 'kind', 'blocks', 'twice', 'C', 'HW', 'gumbel', 'hard', 'stem2', 'collide')}
     m = S(**kw)
     dyadic_init(m, seed)
     # the combiners' alpha are parameters too: restore the uniform initialisation
@@ -122,16 +133,22 @@ def combiners(sn):
     return out
 
 
-def fresh_alphas(sn, ex=None, distinct=True, gap=None):
+def fresh_alphas(sn, ex=None, distinct=True, gap=None, ties=False):
+    """ties=True (with distinct=False): the maximum of at least one block is attained twice"""
     import z3
     pairs, sy = [], {}
+    tied = []
     for name, c in combiners(sn):
         a = SymTensor.fresh(name.replace('.', '_') + '_alpha', (c.n_branches,))
         if ex is not None:
             el = a.elems()
             for v in el:
                 ex.assume(v >= -4, v <= 4)
-            if distinct:
+            if ties:
+                for i in range(len(el)):
+                    for j in range(i + 1, len(el)):
+                        tied.append(z3.And(el[i] == el[j], *[el[i] >= el[k] for k in range(len(el)) if k not in (i, j)]))
+            elif distinct:
                 for i in range(len(el)):
                     for j in range(i + 1, len(el)):
                         if gap is None:
@@ -140,6 +157,8 @@ def fresh_alphas(sn, ex=None, distinct=True, gap=None):
                             ex.assume(z3.Or(el[i] - el[j] >= gap, el[j] - el[i] >= gap))
         pairs.append((c, 'alpha', a))
         sy[name] = a
+    if ties and ex is not None:
+        ex.assume(z3.Or(*tied))
     return pairs, sy
 
 
